@@ -82,7 +82,7 @@ CHECKS = {
             "A real connected pair carries RTP written to a TrackLocalStaticRTP over real SRTP and interceptors: codec in {Opus, VP8, VP9, H264, AV1}, either side offering, further tracks and a data channel in the bundle, random payloads/markers/timestamps/start sequence numbers. Half of the runs use a fault-free FIFO link (every packet must arrive, once, in order), half inject jitter, loss and duplication (received must be a subset of sent, each intact). Oracle: SSRC is the one announced in the sender's SDP, payload type the one the answer lists for the track's codec configuration, payload/sequence/timestamp/marker unchanged, remote track codec/stream id/track id as sent.",
             PC_NOTE + " Header extensions added by interceptors are not compared.", TECH_PC, "§6 C23"),
     "C26": ("pcsim", "exploration",
-            "On a real connected pair with RTX negotiated, the simulated sender suppresses selected originals and puts only their RFC 4588 retransmission on the wire (written through the real RTPSender's SRTP stream with the RTX SSRC / payload type, own sequence numbers, OSN prefix), with 0-15 CSRCs, one-byte / two-byte / other extension profiles, 0-255 padding bytes, payloads of 0-1000 bytes, and RTX packets too short for an OSN. Oracle on TrackRemote.ReadRTP: sequence number = OSN, primary SSRC and payload type, payload without the OSN, marker/timestamp/CSRCs/extension/padding unchanged; too-short packets are never delivered; nothing crashes.",
+            "On a real connected pair with RTX negotiated, the simulated sender suppresses selected originals and puts only their RFC 4588 retransmission on the wire (protected with a separate SRTP context keyed like the sender's transport and written byte for byte, because pion's own SRTP session re-encodes the header; RTX SSRC / payload type, own sequence numbers, OSN prefix), with 0-15 CSRCs, one-byte / two-byte / other extension profiles incl. blocks with RFC 8285 padding words, 0-255 padding bytes, payloads of 0-1000 bytes, RTX packets too short for an OSN, and readers that keep what ReadRTP returned. A second batch (harness C26S) does the same for a simulcast sender announced by rid only (no a=ssrc): mid/rid/repaired-rid extensions, optionally RTX probes first so that the repair stream is bound before the primary one. Oracle on TrackRemote.ReadRTP: sequence number = OSN, primary SSRC and payload type, payload without the OSN, marker/timestamp/CSRCs/extension/padding unchanged; too-short packets are never delivered; nothing crashes.",
             PC_NOTE + " Order between primary packets and unwrapped retransmissions is not compared; two trailing originals let the reader drain the repair queue.", TECH_PC + " (loss-and-retransmit element crafting RFC 4588 packets)", "§6 C26"),
 }
 
